@@ -121,3 +121,132 @@ def perturb_vals(P):
         else:
             out.append(jnp.zeros_like(e))
     return out
+
+
+# --------------------------------------------------------------------------
+# generic obligation families (shared by the combinator-specific properties)
+
+
+def masked(v, fl, s):
+    fl = jnp.broadcast_to(jnp.asarray(fl), s.batch)
+    return jnp.where(_bf(fl, v), v, jnp.zeros_like(v)), fl
+
+
+def chm_view(P, chm):
+    out = []
+    for (v, fl), s in zip(P.read(chm), P.sites):
+        if v is None:
+            out.append((jnp.zeros_like(s.example), jnp.zeros(s.batch, bool)))
+        else:
+            out.append(masked(v, fl, s))
+    return out
+
+
+def trace_vals(P, tr):
+    return [g[0] if g[0] is not None else s.example for g, s in zip(P.read(tr.get_choices()), P.sites)]
+
+
+def full_view(P, tr):
+    """(observable trace content, reference content evaluated at the trace's own values and args)."""
+    vals = trace_vals(P, tr)
+    r = P.ref(tr.get_args(), vals)
+    lhs = [tr.get_score(), PG.norm_ret(P, tr.get_retval())]
+    rhs = [r.score, PG.norm_ret(P, r.retval)]
+    got = chm_view(P, tr.get_choices())
+    for i, s in enumerate(P.sites):
+        lhs.append(got[i][1])
+        rhs.append(jnp.broadcast_to(jnp.asarray(r.present[i]), s.batch))
+    return lhs, rhs
+
+
+def family(pid, nm, P, tier, ops=("assess", "simulate", "importance", "update", "regenerate", "index")):
+    """Standard obligations comparing the real GFI with the reference denotation."""
+    from genjax import IndexRequest, Regenerate, Update
+    from genjax import Selection as S
+
+    A = base_assume(P, in_range=False)
+    n = len(P.sites)
+    ex, ex2 = P.example_vals(), perturb_vals(P)
+    args2 = jax.tree_util.tree_map(lambda x: x + 0.25 if jnp.issubdtype(x.dtype, jnp.floating) else x, P.args)
+    obs = []
+    if "assess" in ops:
+        def f_assess(args, vals):
+            sc, rv = P.gf.assess(P.chm(vals), args)
+            r = P.ref(args, vals)
+            return (sc, PG.norm_ret(P, rv)), (r.score, PG.norm_ret(P, r.retval))
+
+        obs.append(Ob(f"{pid}/assess=ref/{nm}", f_assess, (P.args, ex), assume=A, note="assess == reference (score, retval)"))
+    if "simulate" in ops:
+        def f_sim(key, args):
+            return full_view(P, P.gf.simulate(key, args))
+
+        obs.append(Ob(f"{pid}/simulate=ref/{nm}", f_sim, (KEY, P.args), assume=lambda k, a: A(a), note="simulate: score/retval/presence == reference at the sampled values"))
+    if "importance" in ops:
+        for sub in subsets(n, tier):
+            def f_imp(key, args, vals, sub=sub):
+                tr, w = P.gf.importance(key, P.chm(vals, subset=sub), args)
+                lhs, rhs = full_view(P, tr)
+                tv = trace_vals(P, tr)
+                r = P.ref(args, tv)
+                lhs.append(w)
+                rhs.append(sum((jnp.sum(r.terms[i]) for i in sub), jnp.float32(0.0)))
+                got = chm_view(P, tr.get_choices())
+                for i in sub:
+                    lhs.append(got[i][0])
+                    rhs.append(masked(vals[i], got[i][1], P.sites[i])[0])
+                return lhs, rhs
+
+            obs.append(Ob(f"{pid}/importance{list(sub)}=ref/{nm}", f_imp, (KEY, P.args, ex), assume=lambda k, a, v: A(a, v),
+                          note="importance(S): score/retval/presence == reference at trace values, weight == sum of constrained terms, constraint installed"))
+    if "update" in ops and "update" in P.supports:
+        subs = subsets(n, tier) if tier == "thorough" else list(dict.fromkeys([(), tuple(range(n))] + [(i,) for i in range(min(n, 3))]))
+        for sub in subs:
+            for chg in (False, True):
+                def f_upd(key, args, vals, vals2, args2, sub=sub, chg=chg):
+                    tr, _ = P.gf.importance(key, P.chm(vals), args)
+                    ad = Diff.unknown_change(args2) if chg else Diff.no_change(args)
+                    tr2, w, rd, bwd = Update(P.chm(vals2, subset=sub)).edit(key, tr, ad)
+                    lhs, rhs = full_view(P, tr2)
+                    lhs.append(tr2.get_args())
+                    rhs.append(args2 if chg else args)
+                    return lhs, rhs
+
+                obs.append(Ob(f"{pid}/update{list(sub)}{'+args' if chg else ''}=ref/{nm}", f_upd, (KEY, P.args, ex, ex2, args2),
+                              assume=lambda k, a, v, v2, a2: A(a, v) + A(a2, v2), note="after update: score/retval/presence == reference at the new trace's values and args"))
+    if "regenerate" in ops and "regenerate" in P.supports:
+        for sn, sel in [("all", S.all()), ("none", S.none())] + [(str(s.static_addr), S.at[s.static_addr]) for s in P.sites[:2] if s.static_addr]:
+            def f_reg(key, args, vals, sel=sel):
+                tr, _ = P.gf.importance(key, P.chm(vals), args)
+                tr2, w, rd, bwd = Regenerate(sel).edit(jax.random.fold_in(key, 3), tr, Diff.no_change(args))
+                return full_view(P, tr2)
+
+            obs.append(Ob(f"{pid}/regenerate[{sn}]=ref/{nm}", f_reg, (KEY, P.args, ex), assume=lambda k, a, v: A(a, v), note="after regenerate: trace == reference at its own values"))
+    if "index" in ops and "index" in P.supports and P.kind in ("vmap", "scan"):
+        K = P.meta["inner"]
+        nlen = P.meta["n"]
+        kv = K.example_vals()
+        for si in range(len(K.sites)):
+            nv = (kv[si] + 0.5) if kv[si].dtype == jnp.float32 else kv[si]
+
+            def f_idx(key, args, vals, i, newv, si=si):
+                tr, _ = P.gf.importance(key, P.chm(vals), args)
+                req = IndexRequest(i, Update(K.chm([newv if j == si else None for j in range(len(K.sites))], subset=(si,))))
+                tr2, w, rd, bwd = req.edit(key, tr, Diff.no_change(args))
+                lhs, rhs = full_view(P, tr2)
+                # element i of the edited site holds the new value, all other elements the old ones
+                got = chm_view(P, tr2.get_choices())
+                for j, s in enumerate(P.sites):
+                    sel_i = (jnp.arange(nlen) == i).reshape((nlen,) + (1,) * (vals[j].ndim - 1))
+                    expect = jnp.where(sel_i, jnp.broadcast_to(newv, vals[j].shape), vals[j]) if j == si else vals[j]
+                    lhs.append(got[j][0])
+                    rhs.append(masked(expect, got[j][1], s)[0])
+                r_old = P.ref(args, vals)
+                r_new = P.ref(args, trace_vals(P, tr2))
+                lhs.append(w)
+                rhs.append(r_new.score - r_old.score)
+                return lhs, rhs
+
+            obs.append(Ob(f"{pid}/index-update[{K.sites[si].static_addr}]=ref/{nm}", f_idx, (KEY, P.args, ex, jnp.int32(1), nv),
+                          assume=lambda k, a, v, i, nv_, nlen=nlen: A(a, v) + [i[()] >= 0, i[()] < nlen],
+                          note="IndexRequest(i symbolic, Update(site)): only element i changes; trace == reference loop; weight == newscore-oldscore"))
+    return obs
